@@ -357,7 +357,15 @@ def memo_key_rule(chk: Check, rule: str, fns: list[FuncInfo], suppress: dict[tup
             missing = sorted(d for d in deps if not any(d == k or d.startswith(k + ".") or k.startswith(d + ".") and False for k in key_chains))
             # a whole-object dependency (`generation_config` passed on) is covered by any key derived from that object
             missing = [d for d in missing if not any(k.split(".")[0] == d for k in key_chains if "." not in d)]
-            construct = f"cache store {unparse(site, 70)}"
+            # key: the cache being written (module-level name / attribute), not the incidental local names
+            tgt_ = site.targets[0] if isinstance(site, ast.Assign) else (site.value.func if isinstance(site, ast.Expr) else site)  # type: ignore[union-attr]
+            roots_ = [x for x in ast.walk(tgt_) if (isinstance(x, ast.Name) and x.id.isupper()) or (isinstance(x, ast.Attribute) and "cache" in x.attr.lower())]
+            cache_name = unparse(roots_[0], 60) if roots_ else unparse(tgt_, 40)
+            if isinstance(tgt_, ast.Subscript) and isinstance(tgt_.value, ast.Name) and not roots_:
+                vals_ = [v for _, v in assignments_to(fn.node, tgt_.value.id) if v is not None]
+                up = [x for v in vals_ for x in ast.walk(v) if isinstance(x, ast.Name) and x.id.isupper()]
+                cache_name = up[0].id if up else cache_name
+            construct = f"cache store into {cache_name}"
             real = []
             for d in missing:
                 why = suppress.get((fn.name, d.split(".")[0])) or suppress.get((fn.name, d))
